@@ -79,6 +79,14 @@ def subst(e, m):
     return (k,) + tuple(subst(x, m) if isinstance(x, tuple) else x for x in e[1:])
 
 
+def subst_count(e, cnt):
+    if e[0] == 'rep':
+        return ('rep', subst_count(e[1], cnt), int(cnt) if e[2] == 'n' else e[2], int(cnt) if e[3] == 'n' else e[3])
+    if e[0] in ('str', 're', 'py', 'ref'):
+        return e
+    return (e[0],) + tuple(subst_count(x, cnt) if isinstance(x, tuple) else x for x in e[1:])
+
+
 def universe(tier):
     """yield (tag, start expr, rules, expansion start expr or None)"""
     for bn, body in PBODIES.items():
@@ -122,6 +130,19 @@ def universe(tier):
         yield ('param-named-like-rule/value', call('T', [('py', '7')], None),
                [('T', ('rule', [pname], ('seq', A, ('py', pname), ('call', 'V', [PN, ('py', pname)], [])))),
                 ('V', ('rule', ['a1', 'a2'], ('py', '(a1, a2)')))] + BASE + ID, None)
+    # a nested template call as argument is evaluated (with its own value arguments) only where and when the body uses the
+    # parameter: here the inner value argument `w[0]` is invalid whenever the body does not use p
+    V1 = [('V1', ('rule', ['v'], ('seq', B, ('py', 'v'))))]
+    for body in (('choice', ('right', C, P), ('str', '-')), ('choice', ('seq', ('expectnot', A), ('re', '[bc-]')), P),
+                 ('seq', ('opt', ('right', C, P)), ('re', '[-b]*'))):
+        start = ('let', 'w', ('star', A), call('T', [('call', 'V1', [('py', 'w[0]')], [])], None))
+        yield ('lazy-nested-call', start, [('T', ('rule', ['p'], body))] + V1 + BASE + ID, None)
+    # a repetition count that is a template parameter, next to alternatives inside the template body
+    for cnt in ('2', '3', '0'):
+        for body in (('choice', ('rep', A, 'n', 'n'), ('str', 'aab'), ('str', 'a')), ('seq', ('star', ('seq', ('rep', A, 'n', 'n'), B)), ('re', '[ab]*')),
+                     ('seq', ('opt', ('rep', A, 'n', None)), ('re', '[ab]*'))):
+            yield ('count-parameter', call('T', [('py', cnt)], None), [('T', ('rule', ['n'], body))] + BASE + ID,
+                   subst_count(body, cnt))
     # class members (plain and let) used inside a compound argument
     for omitted in (False, True):
         cls = ('class', None, [('n', omitted, ('apply', ('re', '[abc]'), ('py', 'len'))), ('xs', False, call('T', [('rep', A, 'n', 'n')], None)),
@@ -226,7 +247,7 @@ def jobs(tier):
         mods = [(tuple(allrules), (), 'start', None, (), False, 'named', None)]
         for named in (False, True):
             yield {'mods': mods, 'inputs': inp, 'mode': 'simple', 'tag': tag + ('/named' if named else ''),
-                   'named': named}
+                   'named': named, 'pyraise': tag.startswith('lazy-nested-call')}
         if exp is not None:
             # differential oracle: the hand-expanded grammar, compiled by sourcer, against the same model
             erules = [('start', ('rule', None, exp))] + [r for r in rules if r[0] in ('X', 'K', 'ID')]
